@@ -188,7 +188,26 @@ def run(ck):
             fo = family_oracle((cases[bi][2], cases[bi][3]), parsed[bi], tag, n, f, rel, o, elong)
             if fo:
                 fails.append((i, fo))
-    ck.cov["evaluations"] = len(cases)
+    # ---- without the orientation repair (initialize_cell_properties(false)): volume, area and box are still those of the surface,
+    # whatever the (consistent) winding it was given with
+    nr_cases = []
+    for c in cases:
+        if c[1] in ("base", "all-inside-out") and len(nr_cases) < (40 if ck.tier == "quick" else 1200):
+            nr_cases.append(c)
+    nr_out, _cr = vlib.run_lines_resilient([impl], ["R0 " + fmt_mesh(c[2], c[3]) for c in nr_cases])
+    for c, l in zip(nr_cases, nr_out):
+        o = parse_out(l) if l else None
+        if o is None:
+            continue
+        fam, tag, n, f, rel, elong = c
+        used_ids = sorted(set(i for t in f for i in t))
+        maxc = max(abs(x) for i in used_ids for x in n[i]) + 1e-300
+        sv6 = exact_signed_volume6(n, [tuple(t) for t in f])
+        tolV = 1e-12 * len(f) * maxc ** 3 * 6
+        if abs(float(abs(sv6)) / 6 - o["V"]) > tolV + 1e-12 * abs(o["V"]):
+            fails.append((cases.index(c), "volume_is_enclosed_volume (initialised without orientation repair, %s windings: reported %r, enclosed %r)" % ("inward" if tag == "all-inside-out" else "outward", o["V"], float(abs(sv6)) / 6)))
+            break
+    ck.cov["evaluations"] = len(cases) + len(nr_cases)
     ck.cov["distinct_nontrivial"] = len(cases) - nbase
     ck.cov["traces_validated_against_impl"] = len(cases) - len(broken)
     ck.notes["variants"] = tags
